@@ -10,8 +10,20 @@
 (*   events re-seat the reference on what the emulator shows (a VT100 has no resize) after    *)
 (*   checking the shape; "view" events scroll the view back by k lines and compare what       *)
 (*   content() yields.                                                                        *)
+(*   "refeed" events: the whole stream of the trace (resizes at their positions) fed again to *)
+(*   a fresh emulator under another chunking - in one feed, byte by byte, cut at every single  *)
+(*   position, cut at random positions; what that emulator shows at the end and every reply it *)
+(*   sent are compared with the reference state reached through the per-command events and the *)
+(*   replies recorded there ("any chunking of the stream across feeds").                       *)
+(*   Traces[tid].lock = 1: urwid's encoding is "utf8", the terminal decodes UTF-8 whatever the *)
+(*   program selects; 0: 8-bit characters until ESC % G.                                       *)
 (* kind "b" (robustness): one event per feed of arbitrary bytes / per resize: exception class,*)
-(*   watchdog flag, row lengths, cursors, scrolling region, replies sent to the program.      *)
+(*   watchdog flag, row lengths, cursors, scrolling region, replies sent to the program;      *)
+(*   "rechunk" events: the same operations with the bytes cut differently into feeds, on a     *)
+(*   fresh emulator: screen, scrollback, cursor, region, modes and replies (g, sb, cur, reg,   *)
+(*   st, reps) next to those of the first run (g0, sb0, ...), cells as numbers interned per    *)
+(*   trace.  There is no reference for arbitrary bytes, but the outcome must not depend on the *)
+(*   chunking.                                                                                 *)
 (*                                                                                            *)
 (* IOEnv.C15_STRICT = "1": compare against xterm only and include the SGR flags; rejections   *)
 (* of the strict run that the tolerant run accepts are reported as DIVERGENCE by the driver.  *)
@@ -25,7 +37,7 @@ vars == <<tid, l, term, ok, why>>
 
 Init == /\ tid \in 1..Len(Traces)
         /\ l = 0
-        /\ term = NewVT(Traces[tid].w, Traces[tid].h)
+        /\ term = NewVTL(Traces[tid].w, Traces[tid].h, Traces[tid].lock = 1)
         /\ ok = TRUE
         /\ why = "-"
 
@@ -66,7 +78,27 @@ ViewStep(e) ==
   ELSE IF e.view # ViewOf(e.sb, e.g, e.k) THEN <<"scrolled_back_view_shows_scrollback", term>>
   ELSE <<"-", term>>
 
+\* "any chunking of the stream across feeds": the same stream cut differently ends in the same reference state
+ChunkClause == "chunking_does_not_matter"
+RECURSIVE RepsUpTo(_, _)
+RepsUpTo(ev, n) == IF n = 0 THEN <<>> ELSE RepsUpTo(ev, n - 1) \o (IF ev[n].t = "refeed" THEN <<>> ELSE ev[n].reps)
+RefeedStep(e) ==
+  IF e.exc # "" THEN <<ChunkClause \o ".never_raises", term>>
+  ELSE IF ~Matches(term, e, Strict) THEN <<ChunkClause \o "." \o Why(term, e, Strict), term>>
+  ELSE IF e.reps # RepsUpTo(Traces[tid].ev, l) THEN <<ChunkClause \o ".replies", term>>
+  ELSE <<"-", term>>
+
 (* ---- (b) ---- *)
+RechunkVerdict(e) ==
+  IF e.hang = 1 THEN ChunkClause \o ".terminates_promptly"
+  ELSE IF e.exc # "" THEN ChunkClause \o ".never_raises"
+  ELSE IF e.g # e.g0 THEN ChunkClause \o ".screen"
+  ELSE IF e.cur # e.cur0 \/ e.ccur # e.ccur0 THEN ChunkClause \o ".cursor"
+  ELSE IF e.sb # e.sb0 THEN ChunkClause \o ".scrollback"
+  ELSE IF e.reg # e.reg0 \/ e.st # e.st0 THEN ChunkClause \o ".state"
+  ELSE IF e.reps # e.reps0 THEN ChunkClause \o ".replies"
+  ELSE "-"
+
 FeedVerdict(e) ==
   IF e.hang = 1 THEN "terminates_promptly"
   ELSE IF e.exc # "" THEN "never_raises"
@@ -84,6 +116,8 @@ StepOf(e) ==
   ELSE IF e.t \in Query THEN QueryStep(e)
   ELSE IF e.t = "resize" THEN ResizeStep(e)
   ELSE IF e.t = "view" THEN ViewStep(e)
+  ELSE IF e.t = "refeed" THEN RefeedStep(e)
+  ELSE IF e.t = "rechunk" THEN <<RechunkVerdict(e), term>>
   ELSE IF e.t \in {"feed", "rsz"} THEN <<FeedVerdict(e), term>>
   ELSE <<"no_action", term>>
 
